@@ -70,17 +70,33 @@ def run(args):
                 try:
                     m = refbin.decode(bytes.fromhex(rec['bin_hex']), variant=BASE_VARIANT)
                     vals = [c['body']['values'] for c in m['chunks'] if c['name'] == 'PROP' and c['body']['name'] == 'AttributesSerialize']
-                    if not vals or vals[0][0]['v'] != rec['blob_hex']:
-                        bad('C14:file-blob:binary', 'the binary file does not store the to_writer blob for the Attributes property', rec)
+                    names = [c['body']['values'] for c in m['chunks'] if c['name'] == 'PROP' and c['body']['name'] == 'Name']
+                    want = rec['file_blobs']
+                    if not vals or not names or len(vals[0]) != len(names[0]) or len(vals[0]) != len(want):
+                        bad('C14:file-blob:binary', 'the binary file does not store one Attributes blob per instance', rec)
+                    else:
+                        for nm, v in zip(names[0], vals[0]):
+                            nm = bytes.fromhex(nm['v']).decode()
+                            if want.get(nm) != v['v']:
+                                bad('C14:file-blob:binary', f'the binary file does not store the to_writer blob for the Attributes property of instance {nm!r} '
+                                    f'({len(v["v"]) // 2} bytes stored, {len(want.get(nm, "")) // 2} expected)', rec)
                     stats['file_blob.binary'] = stats.get('file_blob.binary', 0) + 1
                 except refbin.RefError as e:
                     bad('C14:file-blob:binary-undecodable', f'{e}', rec)
             if rec.get('xml_text'):
                 try:
                     d = refxml.decode(rec['xml_text'])
-                    p = d['roots'][0]['props'].get('AttributesSerialize')
-                    if not p or p['t'] != 'BinaryString' or p['v'] != rec['blob_hex']:
-                        bad('C14:file-blob:xml', f'the XML file does not store the to_writer blob for the Attributes property: {json.dumps(p)[:200]}', rec)
+                    want = rec['file_blobs']
+                    if len(d['roots']) != len(want):
+                        bad('C14:file-blob:xml', 'the XML file does not hold the three instances written', rec)
+                    for inst in d['roots']:
+                        nm = inst.get('name')
+                        p = inst['props'].get('AttributesSerialize')
+                        w = want.get(nm)
+                        if w == '' and p is None:
+                            continue
+                        if not p or p['t'] != 'BinaryString' or p['v'] != w:
+                            bad('C14:file-blob:xml', f'the XML file does not store the to_writer blob for the Attributes property of {nm!r}: {json.dumps(p)[:200]}', rec)
                     stats['file_blob.xml'] = stats.get('file_blob.xml', 0) + 1
                 except refxml.RefError as e:
                     bad('C14:file-blob:xml-undecodable', f'{e}', rec)
